@@ -85,7 +85,7 @@ def parseArrayType (F : Nat) (tok : CTok) (dtype : DType) : M DType := do
     if isRefLike dtype then cxxError "arrays of references are illegal" (some tok)
     else do
       let toks ← consumeBalancedTokens F [tok]
-      let toks := inner toks
+      let toks := sliceIf Gen.arraySizeSliced toks
       let size := if toks.isEmpty then none else some (createValue toks)
       match (← tokenIf ["["]) with
       | some otok => pure (.inl (otok, sizes ++ [size]))
@@ -111,7 +111,7 @@ def parseTrailingReturnType (rec : Core) (returnType : Option DType) : M DType :
 def parsePqnameDecltypeSpecifier (F : Nat) : M PQSeg := do
   let tok ← nextTokenMustBe ["("]
   let toks ← consumeBalancedTokens F [tok]
-  pure (.decltype (toTokens (inner toks)))
+  pure (.decltype (toTokens (sliceIf Gen.decltypeSliced toks)))
 
 /-- `_parse_pqname_fundamental(tok_value)` -/
 def parsePqnameFundamental (F : Nat) (tokValue : String) : M PQSeg := do
